@@ -31,6 +31,9 @@ def domain_of(prop):
     if prop == "C11":
         from . import dispatch
         return dispatch
+    if prop == "C19":
+        from . import fault
+        return fault
     if prop == "C16":
         from . import cs
         return cs
